@@ -144,6 +144,23 @@ theorem sound_shapeToForest [DecidableEq β] (A : BoundAlg β sub union) (fl : B
   | node l r ihl ihr =>
       exact sound_newJoined A fl _ ((Forest.sound_append _ _).2 ⟨ihl, ihr⟩)
 
+/-- **`BVHToCollider` / `BVHToObject` on n-ary branches keep every leaf, in order.** -/
+theorem items_bvhJoin [DecidableEq β] (fl : Bool) (f : Forest ι Unit) :
+    (bvhJoin fl boxOf union f).items = f.items := by
+  induction f with
+  | nil => rfl
+  | leaf i r ih => simp [bvhJoin, Forest.items, ih]
+  | node b c r ihc ihr => simp [bvhJoin, Forest.items, items_newJoined, ihc, ihr]
+
+/-- … and build sound hierarchies (every node's bounds cover every leaf below it). -/
+theorem sound_bvhJoin [DecidableEq β] (A : BoundAlg β sub union) (fl : Bool) (f : Forest ι Unit) :
+    Forest.Sound (fun b i => sub (boxOf i) b) (bvhJoin fl boxOf union f) := by
+  induction f with
+  | nil => trivial
+  | leaf i r ih => exact ih
+  | node b c r ihc ihr =>
+      exact (Forest.sound_append _ _).2 ⟨sound_newJoined A fl _ ihc, ihr⟩
+
 /-! ### the halving recursion -/
 
 theorem halveF_spec : ∀ (fuel : Nat) (l : List ι), l ≠ [] → l.length ≤ fuel →
